@@ -200,7 +200,10 @@ func ParseFileWithSourceMap(fileSet *file.FileSet, filename string, javascriptSo
 			bits := bytes.SplitN(lastLine, []byte(","), 2)
 			if len(bits) == 2 {
 				if d, errDecode := base64.StdEncoding.DecodeString(string(bits[1])); errDecode == nil {
-					sourcemapSource = d
+					// A comment cannot make a program invalid: a map that does not parse is ignored.
+					if m, errMap := parseSourceMap(filename, d); errMap == nil {
+						sourcemapSource = m
+					}
 				}
 			}
 		}
